@@ -263,7 +263,7 @@ func runParse(raw json.RawMessage) interface{} {
 	switch s.Fn {
 	case "host.ParseClientKey":
 		f = func() error {
-			name, path, ok := host.ParseClientKey(in)
+			name, path, ok := hostParseClientKey(in)
 			if !ok {
 				return errFalse
 			}
@@ -272,7 +272,7 @@ func runParse(raw json.RawMessage) interface{} {
 		}
 	case "host.ParseConsensusStateKey":
 		f = func() error {
-			rev, h, ok := host.ParseConsensusStateKey(in)
+			rev, h, ok := hostParseConsensusStateKey(in)
 			if !ok {
 				return errFalse
 			}
